@@ -343,6 +343,7 @@ def _distinct(frame, args, kwargs):
         seen = []
         for x in coll:
             k = x if kf is None else kf(x)
+            NOTES.add('distinct-key/' + kind(k))
             if not any([equal(k, s) for s in seen]):
                 seen.append(k)
                 yield x
